@@ -13,7 +13,9 @@ CONSTANTS Sym,        \* payload byte values used by the peer
           MaxLen,     \* longest frame the peer sends (bytes)
           MaxFrames,  \* number of frames the peer sends
           SendLens,   \* payload lengths offered to `send`
-          AllowToggle \* explore PROP_ENABLED flips (send-side configuration)
+          AllowToggle, \* explore PROP_ENABLED flips (send-side configuration)
+          MaxLoss,     \* connection losses explored (0: one connection)
+          ResetOnDisconnect \* deviation switch: TRUE = claimed (a partial frame of a dead connection is discarded); FALSE = as read at the pinned commit
 
 VARIABLES sent,     \* ghost: frames the peer has put on the wire (Seq of byte seqs)
           wire,     \* bytes in flight, not yet handed to receive()
@@ -23,9 +25,10 @@ VARIABLES sent,     \* ghost: frames the peer has put on the wire (Seq of byte s
           refused,  \* payload lengths that send() refused
           raw,      \* chunks passed upward verbatim while framing was disabled
           enabled,  \* PROP_ENABLED
+          lost,     \* connections lost so far
           act       \* history: label of the last action (hidden by VIEW)
 
-vars == <<sent, wire, rbuf, up, down, refused, raw, enabled>>
+vars == <<sent, wire, rbuf, up, down, refused, raw, enabled, lost>>
 View == vars
 Limit == 16777216
 
@@ -43,14 +46,14 @@ Peel(buf, acc) ==
   ELSE <<buf, acc>>
 
 Init == /\ sent = <<>> /\ wire = <<>> /\ rbuf = <<>> /\ up = <<>> /\ down = <<>>
-        /\ refused = <<>> /\ raw = <<>> /\ enabled = TRUE /\ act = [name |-> "Init"]
+        /\ refused = <<>> /\ raw = <<>> /\ enabled = TRUE /\ lost = 0 /\ act = [name |-> "Init"]
 
 PeerSend(f) ==
   /\ enabled /\ Len(sent) < MaxFrames
   /\ sent' = Append(sent, f)
   /\ wire' = wire \o Framed(f)
   /\ act' = [name |-> "PeerSend", frame |-> f]
-  /\ UNCHANGED <<rbuf, up, down, refused, raw, enabled>>
+  /\ UNCHANGED <<rbuf, up, down, refused, raw, enabled, lost>>
 
 \* the network thread calls receive(chunk) with the next n bytes
 Deliver(n) ==
@@ -61,7 +64,7 @@ Deliver(n) ==
         /\ up' = up \o r[2]
         /\ wire' = SubSeq(wire, n + 1, Len(wire))
   /\ act' = [name |-> "Deliver", n |-> n]
-  /\ UNCHANGED <<sent, down, refused, raw, enabled>>
+  /\ UNCHANGED <<sent, down, refused, raw, enabled, lost>>
 
 \* pass-through while framing is disabled: the chunk goes up as is (modelled on
 \* a separate raw stream of one-byte chunks tagged as sequences)
@@ -70,7 +73,7 @@ RawDeliver(c) ==
   /\ Len(raw) < 2
   /\ raw' = Append(raw, c)
   /\ act' = [name |-> "RawDeliver", chunk |-> c]
-  /\ UNCHANGED <<sent, up, wire, rbuf, down, refused, enabled>>
+  /\ UNCHANGED <<sent, up, wire, rbuf, down, refused, enabled, lost>>
 
 Send(n) ==
   /\ Len(down) + Len(refused) < 3
@@ -80,16 +83,39 @@ Send(n) ==
                                ELSE Append(down, [kind |-> "payload", len |-> n])
           /\ UNCHANGED refused
   /\ act' = [name |-> "Send", n |-> n]
-  /\ UNCHANGED <<sent, wire, rbuf, up, raw, enabled>>
+  /\ UNCHANGED <<sent, wire, rbuf, up, raw, enabled, lost>>
 
 \* the property is flipped only between frames (Noise layer: around the prologue)
 Toggle ==
   /\ AllowToggle /\ wire = <<>> /\ rbuf = <<>>
   /\ enabled' = ~enabled
   /\ act' = [name |-> "Toggle"]
-  /\ UNCHANGED <<sent, wire, rbuf, up, down, refused, raw>>
+  /\ UNCHANGED <<sent, wire, rbuf, up, down, refused, raw, lost>>
+
+\* the connection goes down between two receive() calls: bytes in flight are gone, the frames not yet handed up will never
+\* arrive (the ghost `sent` forgets them), and the DISCONNECTED event makes the layer discard its partial frame
+ConnLost ==
+  /\ lost < MaxLoss /\ enabled
+  /\ lost' = lost + 1 /\ wire' = <<>> /\ sent' = up
+  /\ rbuf' = IF ResetOnDisconnect THEN <<>> ELSE rbuf
+  /\ act' = [name |-> "ConnLost"]
+  /\ UNCHANGED <<up, down, refused, raw, enabled>>
+
+\* ... or it goes down WHILE receive() is handing frames upward: a layer above reacts to the j-th frame of this call by closing the
+\* connection (a stream error, a failed login).  The frames behind it in the same chunk belong to the dead connection.
+DeliverLost(n, j) ==
+  /\ lost < MaxLoss /\ enabled /\ ResetOnDisconnect /\ n \in 1..Len(wire)
+  /\ LET r == Peel(rbuf \o SubSeq(wire, 1, n), <<>>) IN
+       /\ j \in 1..Len(r[2])
+       /\ up' = up \o SubSeq(r[2], 1, j)
+       /\ sent' = up \o SubSeq(r[2], 1, j)
+  /\ rbuf' = <<>> /\ wire' = <<>> /\ lost' = lost + 1
+  /\ act' = [name |-> "DeliverLost", n |-> n, j |-> j]
+  /\ UNCHANGED <<down, refused, raw, enabled>>
 
 Next == \/ \E f \in FramesUpTo(MaxLen) : PeerSend(f)
+        \/ ConnLost
+        \/ \E n \in 1..(MaxFrames * (MaxLen + 3)), j \in 1..MaxFrames : DeliverLost(n, j)
         \/ \E n \in 1..(MaxFrames * (MaxLen + 3)) : Deliver(n)
         \/ \E c \in FramesUpTo(2) : RawDeliver(c)
         \/ \E n \in SendLens : Send(n)
@@ -134,6 +160,6 @@ RefinesAbs == Abs!ASpec
 
 \* edge dump for behaviour replay (mechanism A)
 St == [sent |-> sent, wire |-> wire, rbuf |-> rbuf, up |-> up, down |-> down,
-       refused |-> refused, raw |-> raw, enabled |-> enabled]
+       refused |-> refused, raw |-> raw, enabled |-> enabled, lost |-> lost]
 Edge == PrintT(ToJson([from |-> St, act |-> act', to |-> St']))
 ==============================================================================
